@@ -880,7 +880,7 @@ func (ex *Exec) havocRecorded(st *State, r *recorder) {
 		srt := ex.eng.heapSortOf(k)
 		old := st.heap[k]
 		if old == "" {
-			old = ex.eng.smt.named("H"+st.epoch+"_"+k, srt)
+			old = ex.eng.smt.named("H"+st.epochOf(k)+"_"+k, srt)
 		}
 		ex.havocHeapKey(st, k, srt)
 		refs := r.refs[k]
